@@ -212,9 +212,20 @@ def r11_arm_agreement(ctx, pp, rule="C15.R11"):
         draws = [c for c in ast.walk(col) if isinstance(c, ast.Call) and call_name(c) == "map" and c.args and unparse(c.args[0]).endswith("choicew")]
         ctx.floor(rule, "PMF draws in the column-major arm", len(draws), 1)
         for d in draws:
-            ok = len(d.args) == 3 and unparse(d.args[1]) == "actions" and isinstance(d.args[2], ast.Call) and call_name(d.args[2]) == "zip" \
-                and len(d.args[2].args) == 1 and isinstance(d.args[2].args[0], ast.Starred)
-            ctx.ob(rule, SAF, "SafeLearner._parse_pred", d, "column-major PMF: row i draws from (column[i] for every column)", ok, stmt="col PMF transposed")
+            src = d.args[2] if len(d.args) == 3 else None
+            vals = [src] if not isinstance(src, ast.Name) else assigned_value(pp, src.id)
+            # an un-hinted answer is column-major (transpose), a {'pmf': ...} answer holds one pmf per row (take as is)
+            def shape(v):
+                if isinstance(v, ast.Call) and call_name(v) == "zip" and len(v.args) == 1 and isinstance(v.args[0], ast.Starred):
+                    return "transposed"
+                if isinstance(v, ast.IfExp) and "endswith('*')" in unparse(v.test):
+                    a_, b_ = shape(v.body), shape(v.orelse)
+                    return "by hint" if (a_, b_) == ("direct", "transposed") else "mixed"
+                return "direct"
+            shapes = sorted({shape(v) for v in vals if v is not None})
+            ok = len(d.args) == 3 and unparse(d.args[1]) == "actions" and shapes == ["by hint"]
+            ctx.ob(rule, SAF, "SafeLearner._parse_pred", d, "column-major arm: an un-hinted PMF is sampled row by row from the transposed columns, a {'pmf': ...} answer (one pmf per row) as it is", ok,
+                   detail={"pmf source": shapes}, stmt="col PMF transposed")
     row = arms.get("row")
     if row is not None:
         draws = [c for c in ast.walk(row) if isinstance(c, ast.Call) and call_name(c) == "map" and c.args and unparse(c.args[0]).endswith("choicew")]
@@ -385,7 +396,12 @@ def r3_sampling(ctx, pp):
         ctx.ob("C15.R3", SAF, "SafeLearner._parse_pred", c, "sampling happens exactly in the PMF arms", any("== 'PM'" in t for t in g), stmt="draw in PM arm: " + unparse(enclosing_stmt(c))[:70])
         call = c if isinstance(c, ast.Call) else parent(c)
         args = [unparse(a) for a in call.args if not (isinstance(a, ast.Attribute) and a.attr == "choicew")]
-        ctx.ob("C15.R3", SAF, "SafeLearner._parse_pred", call, "the draw is over the offered actions weighted by the learner's PMF", args in (["actions", "pred"], ["actions", "zip(*pred)"]), detail={"args": args},
+        w_ok = False
+        if len(args) == 2 and args[0] == "actions":
+            w = [a for a in call.args if not (isinstance(a, ast.Attribute) and a.attr == "choicew")][1]
+            srcs = [w] if not (isinstance(w, ast.Name) and w.id != "pred") else assigned_value(pp, w.id)
+            w_ok = bool(srcs) and all({x.id for x in ast.walk(v) if isinstance(x, ast.Name)} <= {"pred", "self", "zip"} and "pred" in unparse(v) for v in srcs)
+        ctx.ob("C15.R3", SAF, "SafeLearner._parse_pred", call, "the draw is over the offered actions weighted by the learner's PMF (the answer itself, possibly transposed)", w_ok, detail={"args": args},
                stmt="draw args: " + unparse(call)[:70])
     init = ctx.fn(SAF, "SafeLearner.__init__")
     st = [x for x in walk_shallow(init) if isinstance(x, ast.Assign) and any(is_self_attr(t, "_rng") for t in x.targets)]
@@ -478,7 +494,8 @@ def _body_of(st):
 CONTROLS = [
     ("re-wrapping inherits the probed layout", SAF, M.replace_stmt("SafeLearner.__init__", M.simple_has("self._pred_batch = None"), "self._pred_batch = learner._pred_batch if isinstance(learner, SafeLearner) else None"), "C15.R12"),
     ("column arm keeps the (payload, kwargs) wrapper", SAF, M.replace_expr("SafeLearner._parse_pred", "(pred[0] if len(pred) == 2 else pred[:-1]) if self._pred_kwargs else pred", "pred[:-1] if self._pred_kwargs else pred"), "C15.R11"),
-    ("column PMF not transposed", SAF, M.replace_expr("SafeLearner._parse_pred", "map(self._rng.choicew, actions, zip(*pred))", "map(self._rng.choicew, actions, pred)"), "C15.R11"),
+    ("column PMF not transposed", SAF, M.replace_expr("SafeLearner._parse_pred", "pred if self._pred_format.endswith('*') else zip(*pred)", "pred"), "C15.R11"),
+    ("hinted PMF transposed as well", SAF, M.replace_expr("SafeLearner._parse_pred", "pred if self._pred_format.endswith('*') else zip(*pred)", "zip(*pred)"), "C15.R11"),
     ("identity test dropped before the PMF look-alike", SAF, M.delete_stmt("SafeLearner.pred_format", M.text_has("if any((std_pred[0] is action for action in actions)): return 'AX'")), "C15.R8"),
     ("str guard merged away", SAF, M.replace_expr("SafeLearner.pred_format", "no_len(std_pred) or isinstance(std_pred, str)", "no_len(std_pred)"), "C15.R8"),
     ("kwargs must be a dict", SAF, M.replace_expr("SafeLearner.has_kwargs", "abc.Mapping", "dict"), "C15.R9"),
